@@ -86,10 +86,17 @@ def checkOp (h : Heap) (op : List J) (out : J) : Heap × List (String × Bool ×
       | "geo", some g, _ =>
         if n == 0 then one "geomean" (g == .nan) g.str
         else if !weighted && s.xs.any (· ≤ 0) then one "geomean-nonpositive" (g == .nan) g.str
-        else if s.xs.any (· ≤ 0) then (h, [])      -- weighted with non-positive data: not specified
-        else if sum ws == 0 then one "geomean" (g == .nan) g.str
+        else if sum ws == 0 then (if s.xs.any (· ≤ 0) then (h, []) else one "geomean" (g == .nan) g.str)
         else
-          let e := geoI s.xs ws
+          -- values of weight zero do not count (integer weights = repetition); a non-positive value that
+          -- counts makes the result NaN, as for unweighted data. For non-integer weights with a
+          -- counting non-positive value the property says nothing.
+          let live := (s.xs.zip ws).filter fun (_, w) => w != 0
+          let intW := ws.all fun w => w.den == 1 && w ≥ 0
+          if live.any (fun (x, _) => x ≤ 0) then
+            (if intW then one "geomean-nonpositive" (g == .nan) s!"weighted, a value <= 0 with positive weight: go={g.str}" else (h, []))
+          else
+          let e := geoI (live.map (·.1)) (live.map (·.2))
           let tol := 32 * nr * eps * (1 + ratAbs (I.logQ e.hi).hi + ratAbs (I.logQ e.lo).lo)
           one "geomean" (match g with | .fin q => decide (e.lo * (1 - tol) ≤ q ∧ q ≤ e.hi * (1 + tol)) | _ => false)
             s!"go={g.str} model=[{ratStr e.lo},{ratStr e.hi}]"
